@@ -1,9 +1,12 @@
 package main
 
 import (
+	"errors"
 	"fmt"
+	"math/big"
 	"strings"
 	"sync"
+	"time"
 
 	"github.com/markkurossi/mpc/circuit"
 	"github.com/markkurossi/mpc/ot"
@@ -30,7 +33,17 @@ type blockLog struct {
 	keySeen bool
 	cur     [16]byte
 	fill    int
+	// failAt: when > 0, the failAt-th Read call (1-based) fails once with a transient error and
+	// delivers nothing; later calls succeed (an entropy source with a hiccup)
+	failAt int
+	reads  int
+	failed bool
+	// maxRead: when > 0, a Read call delivers at most this many bytes (a legal io.Reader: a
+	// hardware RNG or block DRBG that hands out 32 bytes per call); 16- and 32-byte reads are full
+	maxRead int
 }
+
+var errEntropy = errors.New("entropy source: resource temporarily unavailable")
 
 // c01RandPatterns: AND masks for directed label randomness.
 var c01RandPatterns = map[string][16]byte{
@@ -45,6 +58,14 @@ var c01RandPatterns = map[string][16]byte{
 var c01RandPatternNames = []string{"all-zero", "low-words-zero", "high-words-zero", "d1-zero", "d0-zero", "one-byte", "top-byte"}
 
 func (b *blockLog) Read(p []byte) (int, error) {
+	b.reads++
+	if b.failAt > 0 && b.reads == b.failAt {
+		b.failed = true
+		return 0, errEntropy
+	}
+	if b.maxRead > 0 && len(p) > b.maxRead {
+		p = p[:b.maxRead]
+	}
 	n, err := b.r.Read(p)
 	if b.skipKey && !b.keySeen && len(p) == 32 {
 		// the session key of circuit.Garbler / Program.Stream: not label randomness
@@ -331,6 +352,9 @@ func runC01(c *Ctx) error {
 			}
 		}
 	}
+	if err := c01Wrappers(c); err != nil {
+		return err
+	}
 	return c01Concurrent(c)
 }
 
@@ -340,6 +364,63 @@ func runC01(c *Ctx) error {
 // circuits x inputs x keys x randomness; it must hold for each of these sessions whatever
 // else is using the circuit value (the sharing discipline itself is property C17).  Oracle
 // only: the model is sequential and the sessions are the same function of their inputs.
+// c01Wrappers: the same claim through the public two-party entry points that wrap
+// Garble / Eval (circuit.Garbler and circuit.Evaluator over an in-memory connection): the
+// values BOTH wrappers return for circuits with one, two and three output arguments must be
+// the outputs of the truth-table evaluation, argument by argument.
+func c01Wrappers(c *Ctx) error {
+	n := c.N(10, 300)
+	for i := 0; i < n; i++ {
+		r := c.rng.Fork()
+		circ := GenCircuit(r, GenOpts{MinIn: 2, MaxIn: 24, MinGates: 4, MaxGates: 60, MaxOut: 12, Overwrite: true, TwoParty: true})
+		for tries := 0; len(circ.Outputs) < 2 && i%3 != 0 && tries < 20; tries++ {
+			circ = GenCircuit(r, GenOpts{MinIn: 2, MaxIn: 24, MinGates: 8, MaxGates: 60, MaxOut: 12, Overwrite: true, TwoParty: true})
+		}
+		n0, n1 := int(circ.Inputs[0].Type.Bits), int(circ.Inputs[1].Type.Bits)
+		x := make([]bool, n0+n1)
+		for k := range x {
+			x[k] = r.Bool()
+		}
+		if i%4 == 1 {
+			for k := range x {
+				x[k] = true
+			}
+		}
+		kind := otKinds[i%3]
+		res := runSession(circ, bitsToBig(x[:n0]), bitsToBig(x[n0:]), &blockLog{r: r.Fork(), skipKey: true},
+			kind.mk(r.Fork()), kind.mk(r.Fork()), 0, r.Fork(), nil, 60*time.Second)
+		want := TruthEval(circ, x)
+		var wantArgs []*big.Int
+		ofs := 0
+		for _, o := range circ.Outputs {
+			wantArgs = append(wantArgs, bitsToBig(want[ofs:ofs+int(o.Type.Bits)]))
+			ofs += int(o.Type.Bits)
+		}
+		c.Hist(fmt.Sprintf("wrapper:output-arguments:%d", len(circ.Outputs)))
+		c.Hist("wrapper:ot:" + kind.name)
+		bad := ""
+		switch {
+		case res.stalled:
+			bad = "session stalled"
+		case res.gErr != nil:
+			bad = "Garbler error: " + res.gErr.Error()
+		case res.eErr != nil:
+			bad = "Evaluator error: " + res.eErr.Error()
+		case bigsString(res.gRes) != bigsString(wantArgs):
+			bad = "circuit.Garbler returns values that differ from the truth-table evaluation"
+		case bigsString(res.eRes) != bigsString(wantArgs):
+			bad = "circuit.Evaluator returns values that differ from the truth-table evaluation"
+		}
+		c.Eval(fmt.Sprintf("wrapper|%s|%s", circuitText(circ), bitsString(x)), bad == "")
+		if bad != "" {
+			c.Fail("c01:wrapper:"+strings.SplitN(bad, ":", 2)[0], bad, map[string]interface{}{
+				"circuit": circuitText(circ), "outputs": fmt.Sprint(outSizes(circ)), "x": bitsString(x[:n0]), "y": bitsString(x[n0:]), "ot": kind.name,
+				"garbler_returns": bigsString(res.gRes), "evaluator_returns": bigsString(res.eRes), "want": bigsString(wantArgs)})
+		}
+	}
+	return nil
+}
+
 func c01Concurrent(c *Ctx) error {
 	nc := c.N(4, 60)
 	keyLens := []int{16, 24, 32}
